@@ -875,9 +875,7 @@ func akRunRace(spec akRaceSpec, patience time.Duration) akRaceRow {
 	for i := range others {
 		row.Others = append(row.Others, others[i].snapshot())
 	}
-	if spec.Conn == "cut" && spec.Dir == "s2c" {
-		// server socket is gone with the connection; its table is not inspected
-	} else if ids, ok := sio.VerifPendingAcks(emitter, patience); ok {
+	if ids, ok := sio.VerifPendingAcks(emitter, patience); ok {
 		for _, id := range ids {
 			row.Pending = append(row.Pending, int(id))
 		}
